@@ -490,6 +490,9 @@ func (w *World) Exec(st Step) {
 		if st.Ch == "other" {
 			ch = (ch + 7) % 256
 		}
+		if st.Ch == "off" && st.N%256 != 0 { // any foreign channel: the current one plus st.N
+			ch = (ch + st.N) % 256
+		}
 		var p knxnet.ServicePackable
 		switch st.Svc {
 		case "TunnelRes":
